@@ -70,6 +70,16 @@ class Index:
         return k in self._labels
 
     def __getitem__(self, i):
+        if isinstance(i, Series):
+            i = i._to_array()
+        if isinstance(i, np.ndarray):
+            if i.kind == 'b':
+                if len(i) != len(self._labels):
+                    raise IndexError("boolean index did not match indexed array along axis 0")
+                return Index([lab for lab, m in zip(self._labels, i._flat_values()) if symx.truth(m)])
+            return Index([self._labels[int(k)] for k in i._flat_values()])
+        if isinstance(i, list):
+            return Index([self._labels[int(k)] for k in i])
         r = self._labels[i]
         return Index(r) if isinstance(i, slice) else r
 
@@ -994,6 +1004,8 @@ class _Loc:
             if k == slice(None):
                 return list(range(len(df._index))), True
             raise ModelGap(".loc label slice")
+        if isinstance(k, Index):
+            k = list(k._labels)
         if isinstance(k, (list, np.ndarray)):
             labels = list(k) if isinstance(k, list) else k._flat_values()
             if labels and builtins.all(isinstance(x, bool) for x in labels):
@@ -1001,9 +1013,10 @@ class _Loc:
             out = []
             for lab in labels:
                 lab = int(lab) if isinstance(lab, (int, SymInt)) else lab
-                if lab not in df._index:
+                hits = [i for i, x in enumerate(df._index) if x == lab]     # a repeated label selects every row carrying it
+                if not hits:
                     raise KeyError(lab)
-                out.append(df._index.index(lab))
+                out.extend(hits)
             return out, True
         lab = int(k) if isinstance(k, (int, SymInt)) and not isinstance(k, bool) else k
         if lab not in df._index:
